@@ -39,6 +39,8 @@ type OutOp struct {
 type C04Case struct {
 	Role    string       `json:"role"`
 	Buf     int          `json:"buf"`
+	Hangup  bool         `json:"hangup"`     // every peer closes its connection right after its last byte, without waiting
+	SlowNs  int64        `json:"slow_ns"`    // virtual time the incoming handler spends on each message (0: none)
 	Conns   []ConnScript `json:"conns"`
 	Senders [][]OutOp    `json:"senders"`
 }
@@ -120,6 +122,18 @@ func genC04(t *rapid.T) *C04Case {
 		Role: rapid.SampledFrom([]string{"acceptor", "initiator"}).Draw(t, "role"),
 		Buf:  rapid.SampledFrom([]int{0, 1, 10}).Draw(t, "buf"),
 	}
+	c.Hangup = rapid.IntRange(0, 3).Draw(t, "hangup") == 0
+	if rapid.IntRange(0, 3).Draw(t, "slow") == 0 {
+		c.SlowNs = rapid.SampledFrom([]int64{1, 1e6, 50e6}).Draw(t, "slowNs")
+	}
+	if c.Role == "initiator" {
+		// When an initiator's connection ends while its handler is still busy,
+		// Initiator.Serve holds a sync.Once (a mutex) around StopWithError and a
+		// second goroutine queues on it, and its forwarding loop spins on the
+		// closed reader channel; neither is a durable wait, so the bubble's clock
+		// stops and a virtual sleep inside a handler would never end.
+		c.SlowNs = 0
+	}
 	nc := 1
 	if c.Role == "acceptor" {
 		nc = rapid.IntRange(1, 4).Draw(t, "nConns")
@@ -155,11 +169,15 @@ type recorder struct {
 	got    [][]byte
 	inside int32
 	reent  bool
+	slow   time.Duration
 }
 
 func (r *recorder) handle(data []byte) bool {
 	if atomic.AddInt32(&r.inside, 1) != 1 {
 		r.reent = true
+	}
+	if r.slow > 0 {
+		time.Sleep(r.slow)
 	}
 	r.mu.Lock()
 	r.got = append(r.got, append([]byte(nil), data...))
@@ -175,9 +193,11 @@ type sender interface {
 }
 
 func checkC04(c *C04Case, rec *evid.Rec) (vs []pbt.Violation) {
+	done := pbt.Watch("C04", "TestC04", c)
+	defer done()
 	recs := make([]*recorder, len(c.Conns))
 	for i := range recs {
-		recs[i] = &recorder{}
+		recs[i] = &recorder{slow: time.Duration(c.SlowNs)}
 	}
 	conns := make([]*netsim.Conn, len(c.Conns))
 	var handOff []string // order in which the all-types outgoing handler saw messages
@@ -241,6 +261,9 @@ func checkC04(c *C04Case, rec *evid.Rec) (vs []pbt.Violation) {
 					conns[i].Feed(stream[prev:p])
 					prev = p
 				}
+				if c.Hangup {
+					conns[i].PeerClose()
+				}
 			}()
 		}
 		for s := range c.Senders {
@@ -274,6 +297,8 @@ func checkC04(c *C04Case, rec *evid.Rec) (vs []pbt.Violation) {
 			}()
 		}
 		wg.Wait()
+		synctest.Wait()
+		time.Sleep(time.Duration(c.SlowNs)*40 + time.Second) // slow handlers finish their backlog
 		synctest.Wait()
 		// end of case: peers close, then the local side shuts down
 		for _, cn := range conns {
@@ -318,7 +343,33 @@ func checkC04(c *C04Case, rec *evid.Rec) (vs []pbt.Violation) {
 			vs = append(vs, pbt.V("reentrant-delivery", "connection %d: the incoming handler was entered while a previous call was still running", i))
 		}
 		if len(r.got) != len(cs.Msgs) {
-			vs = append(vs, pbt.V("inbound-count:"+cs.Style, "connection %d (%s, role %s, buf %d): %d messages sent, %d delivered", i, cs.Style, c.Role, c.Buf, len(cs.Msgs), len(r.got)))
+			// a peer that hangs up right after its last byte: the messages still
+			// in transit between the reader and the handler are dropped (known
+			// finding). In transit can be: one in the reader's hand, one in the
+			// forwarder's hand, plus the connection's reader channel (acceptor: 0,
+			// initiator: buf). Anything beyond that window is not that finding.
+			window := 2
+			if c.Role == "initiator" {
+				window += c.Buf
+			}
+			// delivered must be a subsequence of sent whose gaps all lie in the last `window` messages
+			tailOnly := len(r.got) < len(cs.Msgs)
+			k := 0
+			for idx, m := range cs.Msgs {
+				if k < len(r.got) && bytes.Equal(r.got[k], m) {
+					k++
+				} else if idx < len(cs.Msgs)-window {
+					tailOnly = false
+				}
+			}
+			if k != len(r.got) {
+				tailOnly = false
+			}
+			if c.Hangup && tailOnly {
+				vs = append(vs, pbt.V("inbound-tail-lost-at-hangup", "connection %d (%s, role %s, buf %d): the peer sent %d messages and closed at once; %d of the last %d were not delivered", i, cs.Style, c.Role, c.Buf, len(cs.Msgs), len(cs.Msgs)-len(r.got), window))
+				continue
+			}
+			vs = append(vs, pbt.V("inbound-count:"+cs.Style, "connection %d (%s, role %s, buf %d, hangup %v): %d messages sent, %d delivered", i, cs.Style, c.Role, c.Buf, c.Hangup, len(cs.Msgs), len(r.got)))
 			continue
 		}
 		for k := range cs.Msgs {
@@ -374,7 +425,7 @@ func checkC04(c *C04Case, rec *evid.Rec) (vs []pbt.Violation) {
 				break
 			}
 		}
-		if len(outErrs) == 0 {
+		if len(outErrs) == 0 && !c.Hangup {
 			for id := range handed {
 				if seen[id] != 1 {
 					vs = append(vs, pbt.V("outbound-count", "message %s was handed over once and appears %d times on the wire", id, seen[id]))
@@ -392,6 +443,10 @@ func checkC04(c *C04Case, rec *evid.Rec) (vs []pbt.Violation) {
 			if viaHandler[id] {
 				wireHandled = append(wireHandled, id)
 			}
+		}
+		if c.Hangup {
+			// the connection went away under the senders: what did leave must still be in hand-off order
+			handOff = subsequenceOf(wireHandled, handOff)
 		}
 		if len(outErrs) == 0 && fmt.Sprint(wireHandled) != fmt.Sprint(handOff) {
 			vs = append(vs, pbt.V("outbound-order", "messages left in order %v, they were handed off in order %v", wireHandled, handOff))
@@ -414,6 +469,9 @@ func checkC04(c *C04Case, rec *evid.Rec) (vs []pbt.Violation) {
 					got = append(got, id)
 				}
 			}
+			if c.Hangup {
+				want = subsequenceOf(got, want)
+			}
 			if len(outErrs) == 0 && fmt.Sprint(got) != fmt.Sprint(want) {
 				vs = append(vs, pbt.V("outbound-raw-order", "sender %d: SendRaw messages left in order %v, handed in order %v", s, got, want))
 			}
@@ -425,6 +483,12 @@ func checkC04(c *C04Case, rec *evid.Rec) (vs []pbt.Violation) {
 	}
 	rec.Case(evid.FPs(fmt.Sprint(c.Role, c.Buf, len(c.Conns), len(c.Senders), lens(c))), nontrivial)
 	rec.Hist("role:" + c.Role)
+	if c.Hangup {
+		rec.Hist("peer-hangs-up-after-last-byte")
+	}
+	if c.SlowNs > 0 {
+		rec.Hist("slow-incoming-handler")
+	}
 	rec.Hist(fmt.Sprintf("buf=%d", c.Buf))
 	rec.Hist(fmt.Sprintf("connections=%d", len(c.Conns)))
 	if rec.WantSample() && nontrivial {
@@ -449,4 +513,19 @@ func TestC04(t *testing.T) {
 	outerT = t
 	rec := evid.New("C04")
 	pbt.Run(t, "C04", rec, genC04, checkC04)
+}
+
+// subsequenceOf returns got if got is a subsequence of all (same relative
+// order), otherwise all unchanged.
+func subsequenceOf(got, all []string) []string {
+	k := 0
+	for _, x := range all {
+		if k < len(got) && got[k] == x {
+			k++
+		}
+	}
+	if k == len(got) {
+		return got
+	}
+	return all
 }
